@@ -12,6 +12,11 @@ claimed = {
    ref="DESIGN §4 C17"),
 }
 
+claimed["C19"] = dict(
+   text="Deductive proof, for all declaration lists, of the contract of WriteDeclarations taken from the property statement: the slice is permuted in place (same elements), all priority declarations precede all others, each group is in non-decreasing ID order, and the returned text is exactly, for that order, the content of the first occurrence of each distinct ID followed by a newline (recursive spec function `emitted`). The comparison closures are proved to be strict weak orders (the side condition of package sort). Order independence then follows because a key-sorted permutation in which equal keys imply equal elements is unique (lemma, see note).",
+   note="Trusted: govc and the SMT solvers; assumed contracts of sort.Slice / sort.SliceStable (permutation without inversions; stable keeps ties in order) and of strings.Builder (append-only string) and Go map semantics; string '<' is an uninterpreted strict total order. The step from 'sorted by (priority, ID), same elements, equal IDs carry equal content' to 'the text is the same for every input order' is the uniqueness of sorted permutations, proved once in Lean 4 core (lemmas/sorted_perm_unique.lean, re-checked in the thorough tier; the correspondence between the Lean statement and the SMT postconditions is by hand) and exercised exhaustively by the bounded harness in the thorough tier.",
+   ref="DESIGN §4 C19")
+
 not_applicable = {
  "C01": "type-checking of emitted Go text for all inputs needs a typing judgement over Sprintf templates; no contract on a Go function returning a string can express it (DESIGN §5)",
  "C02": "round trip and wire bytes are run-time behaviour of the emitted wrappers under encoding/json; a contract on the generator can only restate its templates (DESIGN §5)",
